@@ -167,6 +167,20 @@ def conn_keepalive(rng):
     return {"kind": "conn", "device": dev, "log_size": 0, "threads": [ops], "pre_register": [1]}
 
 
+def with_second(rng, spec):
+    """the same scenario with a second, independent connection (own receiver, own traffic) alive in the same process: anything the first
+    connection does must be a matter of its own state only (class-level / module-level state shared between connections shows here)"""
+    spec["second"] = {"device": {"type": "scripted", "latency": rng.choice([0.0, 0.03, 0.15, 0.4])}}
+    for ops in spec["threads"][:1]:
+        out = []
+        for op in ops:
+            out.append(op)
+            if op[0] in ("sleep", "put", "get", "raw") and rng.random() < 0.5:
+                out.append(["get2", "SYS", "MODELNAME"] if rng.random() < 0.3 else ["put2", "B", f"F{len(out)}", str(rng.randint(0, 9))])
+        spec["threads"][0] = out
+    return spec
+
+
 def conn_keepalive_two(rng):
     """C13 with a second, independent connection alive in the same process: its probes, its own MODELNAME queries and the lines it receives
     must not influence what the first connection withholds or delivers (per-connection state only)"""
